@@ -39,6 +39,9 @@ type config struct {
 	// load then stacks a second filter with the same program, and with thread-sync it must still reach every thread
 	Preload      bool   `json:"preload"`
 	PreloadFlags uint32 `json:"preload_flags"`
+	// PreloadOther: the earlier load is of ANOTHER policy (a third probe syscall) and may itself use thread-sync
+	// (PreloadFlags as given); what the recorded load does to the other threads must depend on its own flags only
+	PreloadOther bool `json:"preload_other"`
 }
 
 type probeRec struct {
@@ -197,7 +200,14 @@ func main() {
 		}
 		pol := seccomp.Policy{DefaultAction: seccomp.ActionAllow,
 			Syscalls: []seccomp.SyscallGroup{{Action: seccomp.ActionErrno, Names: []string{probe.Syscalls[0].Name}}}}
-		if cfg.Preload {
+		if cfg.Preload && cfg.PreloadOther {
+			other := seccomp.Policy{DefaultAction: seccomp.ActionAllow,
+				Syscalls: []seccomp.SyscallGroup{{Action: seccomp.ActionErrno, Names: []string{probe.Syscalls[2].Name}}}}
+			if err := seccomp.LoadFilter(seccomp.Filter{NoNewPrivs: true, Flag: seccomp.FilterFlag(cfg.PreloadFlags), Policy: other}); err != nil {
+				fmt.Fprintln(os.Stderr, "preload failed:", err)
+				os.Exit(3)
+			}
+		} else if cfg.Preload {
 			if err := seccomp.LoadFilter(seccomp.Filter{NoNewPrivs: true, Flag: seccomp.FilterFlag(cfg.PreloadFlags &^ 1), Policy: pol}); err != nil {
 				fmt.Fprintln(os.Stderr, "preload failed:", err)
 				os.Exit(3)
